@@ -24,6 +24,9 @@ CHECKS = {
     "C08": dict(cat="other", ref="DESIGN.md §4 C08", technique="CrossHair symbolic execution of Message.to_io/from_io over the real Popen2IO/SocketIO/ProxyIO adapters with symbolic message fields and a symbolic chunking script",
                 text="Bounded symbolic check of framing under arbitrary chunking on all three transports' read/write adapters; the concurrent-sender atomicity part of the statement is not decided by this check (see level_note).",
                 note=E1_NOTE + "; frame atomicity under concurrent senders needs the schedule engine (E2) and is outside this check"),
+    "C04": dict(cat="other", ref="DESIGN.md §4 C04", technique="CrossHair symbolic execution of the real receiver-thread body over a stream cut at a symbolic byte offset with symbolic read chunking (Popen2IO and SocketIO)",
+                text="Bounded symbolic check over every cut offset of enumerated frame histories: delivered items are exactly the complete frames, then EOFError everywhere, endmarker once, gateway refuses further use. Several concurrently blocked waiters (schedules) are outside this check.",
+                note=E1_NOTE + "; the receiver thread body is executed synchronously, so interleavings with blocked user threads are not explored here"),
 }
 
 NOT_APPLICABLE = [
